@@ -257,7 +257,8 @@ class ProgGen:
 
 def trace_program(fa, fn, sig, target, name, rewrite, alt=False, algebraic=True):
     ns = {}
-    exec("def %s(ctx, %s):\n    return _fn(ctx, %s)\n" % (name, ", ".join("abc"[: len(sig)]), ", ".join("abc"[: len(sig)])), dict(_fn=fn), ns)
+    argnames = getattr(fn, "argnames", None) or list("abcd"[: len(sig)])
+    exec("def %s(ctx, %s):\n    return _fn(ctx, %s)\n" % (name, ", ".join(argnames), ", ".join(argnames)), dict(_fn=fn), ns)
     ctx = fa.Context(paths=[fa.algorithms])
     with warnings.catch_warnings():
         warnings.simplefilter("ignore")
@@ -454,6 +455,29 @@ def collect_programs(fa, tname, rnd, ngen):
         t4 = (a / b).reference("t")
         return t1 * t2 * t3 * t4 + t1 * t2 * t3 * t4
     directed += [("repeated-reference-names-in-call", refnames_call, [ft, ft]), ("repeated-reference-names", refnames_top, [ft, ft])]
+    # argument names: names whose concatenation is ambiguous (readable reference names are joined from operand names), names that spell a constant
+    def ambiguous_names(ctx, a_b, c, a, b_c):
+        t1 = a_b + c
+        t2 = a + b_c
+        t3 = a_b * c
+        t4 = a * b_c
+        return t1 * t1 + t2 / (t2 + c) + t3 * t3 - t4 * t4
+    ambiguous_names.argnames = ["a_b", "c", "a", "b_c"]
+    def constant_like_names(ctx, inf, nan, pi):
+        t = inf + nan
+        return t * t + pi * t
+    constant_like_names.argnames = ["inf", "nan", "pi"]
+    def keyword_like_names(ctx, result, numpy_, x_0_):
+        t = result - numpy_
+        return t * t + x_0_ * t
+    keyword_like_names.argnames = ["result", "numpy_", "x_0_"]
+    directed += [("ambiguous-joined-names", ambiguous_names, [ft, ft, ft, ft]), ("argument-names-that-spell-constants", constant_like_names, [ft, ft, ft]),
+                 ("argument-names-like-internals", keyword_like_names, [ft, ft, ft])]
+    # integer-valued literals meeting in a division / remainder (C++: an int literal on both sides is an integer division)
+    directed += [
+        ("integer-literals-in-division", lambda ctx, a, b: ctx.select(a < b, ctx.constant(1, a), ctx.constant(3, a)) / ctx.constant(2, a) + a, [ft64, ft64]),
+        ("integer-literals-in-division-2", lambda ctx, a: ctx.constant(7, a) / ctx.constant(2, a) * a + ctx.constant(1, a) / a, [ft64]),
+    ]
     if ct is not None:
         directed += [
             ("complex-constant-inf-part", lambda ctx, z: z + ctx.constant(complex(math.inf, -0.0), z), [ct]),
